@@ -498,7 +498,7 @@ func c17TTLRun(c *c17TTLCase) (res c17TTLResult) {
 
 	// ---- phase 1: every prompt once; wait for the gateway's own save ------------------
 	stale := make([][]string, len(c.Prompts)) // answers stored in phase 1 / 1b, per prompt
-	var lastSeen time.Time                   // latest moment at which a phase-1 entry was first seen in the index
+	var lastSeen time.Time                    // latest moment at which a phase-1 entry was first seen in the index
 	for k, i := range c.Phase1 {
 		if i == -1 {
 			if v := probe(fmt.Sprintf("phase 1 request %d", k)); v != "" {
